@@ -100,7 +100,9 @@ func incrementBytes(in []byte) []byte {
 	for i := len(rv) - 1; i >= 0; i-- {
 		rv[i] = rv[i] + 1
 		if rv[i] != 0 {
-			return rv // didn't overflow, so stop
+			// didn't overflow, so stop; drop the wrapped trailing bytes,
+			// otherwise keys between rv[:i+1] and rv are wrongly included
+			return rv[:i+1]
 		}
 	}
 	return nil // overflowed
